@@ -42,6 +42,9 @@ inductive Err | value | key | type | other | unsupported
   deriving DecidableEq, Repr
 
 /-- a number as written (`q`) and as the float64 the code holds (`f`) -/
+/-- the error of a result, if any (used to state rejections) -/
+def err? {α} (r : Except Err α) : Option Err := match r with | .error e => some e | .ok _ => none
+
 structure Num where
   q : Rat
   f : Rat
